@@ -18,7 +18,7 @@ PROPS_MODULE = 'QV.C20.Props'
 CORR_IMPORTS = ['QV.C20.Model', 'QV.C20.Spec', 'QV.C20.Corr']
 CHECK_CORR = 'check_corr'
 CHECK_SPEC = 'check_spec'
-SHARD = 300
+SHARD = 130
 RULE = ('kinds: volt_tol = TOLERANCE STREAM, counted apart (never non-trivial, own histogram key): decimal amplitudes / '
         'offsets / voltages (binary64 values of decimal strings, handed exactly to the model), codes accepted within '
         '1/2 + 2^-30 of the exact scaled voltage, range / monotonicity / rejection / identity of the variants exact.  '
@@ -33,7 +33,18 @@ RULE = ('kinds: volt_tol = TOLERANCE STREAM, counted apart (never non-trivial, o
         'directly and the public entry point as well.  Non-trivial: volt with a non-integer scaled voltage or an error; '
         'win/shrink/avg with >= 2 windows that are not already sorted-and-disjoint; mono with >= 3 elements; sample with a '
         'transformation, a None slot or >= 2 waveforms; times with >= 2 durations or an error.  Distinct = distinct '
-        'canonical JSON of the case.')
+        'canonical JSON of the case.  ROUND 3 (argument objects): every routine is called TWICE ON THE SAME ARGUMENT '
+        'OBJECTS per variant; exact snapshots (element kind + values, whole base array of a view) of every argument before / '
+        'after the first / after the second call, result must not share memory with an argument; check_spec demands the '
+        'second observation = the first and all snapshots equal (CTwice).  Argument attributes drawn per case among those '
+        'on which the arithmetic stays exact: element kind float64 / float32 / int64 / int32 / uint64, read-only flag, '
+        'strided view, amplitude / offset as Python ints, list / tuple / bare waveform.  Family gen_stateful: offset exactly '
+        '0 vs 1 x every element kind x (low resolution, large amplitude | high resolution) x read-only / view; one array '
+        'object for two parameters (begins is lengths; ends is begins; values is time; begins is time); the same channel id '
+        'on 2-4 outputs with pairwise different amplitude / offset / transformation; resolutions 17..32 (must be rejected).  '
+        'Pipelines (CAnd): the read-only result of time_windows_to_samples is fed to shrink_overlapping_windows; the result of '
+        'a shrink is shrunk again (backends in place on one pair of arrays, twice).  ProgramEntry is built twice from the '
+        'same waveform objects / tuples / callables / Loop tree; the first entry must hold the same samples afterwards.')
 TRUSTED = [
     'Coq 8.16.1 kernel + vm_compute (no native_compute)',
     'translator /verif/translate/py2gallina_c20.py (typed Z/Q/bool/arrays, canonical loop state by liveness; fail-closed; output '
@@ -44,10 +55,16 @@ TRUSTED = [
     'binary64 rounding itself is NOT modelled',
     'Waveform.get_sampled is the sampling function of a waveform (its own contract is property C08); the harness samples '
     'it on its own exact grid k/rate and hands the values to the model',
-    'harness: generators, exact float->rational conversion (as_integer_ratio), Gallina printers',
+    'harness: generators, exact float->rational conversion (as_integer_ratio), Gallina printers; the argument snapshots '
+    '(numpy array -> element kind code + exact values) and np.shares_memory',
+    'store16 (codes of 17..30 bit resolutions as stored by the INTERNAL variants = code mod 2^16) is the observed behaviour of '
+    "numpy's float64 -> uint16 conversion on this platform (undefined in C); compared only for the internal variants, "
+    'the public function rejects such resolutions',
 ]
 ASSUMPTIONS = [
-    'amplitude > 0, 1 <= resolution <= 16 for code comparison (uint16 wrap-around for larger resolutions not modelled)',
+    'amplitude > 0; resolution outside 1..16 must be rejected (since repair 4036b19); wrap-around of the internal variants '
+    'modelled for 17..30 bit only',
+    'float32 / integer argument arrays only where every intermediate of the conversion is exactly representable in that kind',
     'window begins and lengths are non-negative (negative values overflow uint64 differently in the two variants)',
     'begins/lengths arrays have equal length; integer windows are int64/uint64 arrays',
     'average_windows: time array sorted (documented precondition), no NaN',
@@ -158,6 +175,12 @@ def gen_volt(rng, tier, out):
                     out.append({'kind': 'volt', 'amp': fs(M), 'off': fs(off), 'res': res, 'vs': [fs(v) for v in vs[i:i + 41]]})
     for res in (0, -1):                                                       # malformed resolution
         out.append({'kind': 'volt', 'amp': '1', 'off': '0', 'res': res, 'vs': ['0', '1/2']})
+    for res in (17, 18, 20, 24, 32):          # more bits than the uint16 result has: must be rejected (codes would wrap)
+        out.append({'kind': 'volt', 'amp': '1', 'off': '0', 'res': res, 'vs': ['-1', '0', '1/2', '1']})
+        amp = F(2) ** rng.randint(-1, 2)
+        off = rng.choice([F(0), F(1, 2)])
+        out.append({'kind': 'volt', 'amp': fs(amp), 'off': fs(off), 'res': res,
+                    'vs': [fs(off + dy(rng, -amp, amp, 6)) for _ in range(rng.randint(1, 5))]})
 
 
 def gen_volt_tol(rng, tier, out):
@@ -424,8 +447,147 @@ def gen_sample(rng, tier, out):
                     'via_loop': via_loop, 'repeat': reps})
 
 
+def _bits_ok(x, bits=24):
+    """x is a dyadic rational with a significand of at most `bits` bits (exactly representable in binary32 for bits=24)"""
+    x = F(x)
+    if x == 0:
+        return True
+    n, d = abs(x.numerator), x.denominator
+    if d & (d - 1) or d > 2 ** 60:
+        return False
+    while n % 2 == 0:
+        n //= 2
+    return n.bit_length() <= bits
+
+
+def _is_int(x):
+    return F(x).denominator == 1
+
+
+def volt_f4_ok(case):
+    """every value and every intermediate of the conversion is exactly representable in binary32"""
+    amp, off, res = F(case['amp']), F(case['off']), case['res']
+    if res < 1 or res > 16 or amp <= 0:
+        return False
+    scale = F(2 ** res - 1) / (2 * amp)
+    xs = [amp, off, scale]
+    for v in case['vs']:
+        x = F(v) - off
+        xs += [F(v), x, x + amp, (x + amp) * scale]
+    return all(_bits_ok(x) for x in xs)
+
+
+def decorate(rng, c):
+    """argument-object attributes: element kind of the arrays, read-only flag, strided view; chosen among the kinds on which
+    the computation stays exact"""
+    k = c['kind']
+    if k == 'volt':
+        kinds = ['f8', 'f8', 'f8']
+        if volt_f4_ok(c):
+            kinds.append('f4')
+        if c['vs'] and all(_is_int(v) for v in c['vs']):
+            kinds += ['i8', 'i8', 'i4']
+        c.setdefault('dtype', rng.choice(kinds))
+        c.setdefault('intscalars', rng.random() < 0.25)
+    if k == 'mono':
+        kinds = ['f8', 'f8', 'f4'] + (['i8', 'i4', 'u8'] if all(_is_int(x) and F(x) >= 0 for x in c['xs']) else [])
+        c.setdefault('dtype', rng.choice(kinds))
+    if k == 'win':
+        sr = F(c['sr'])
+        kinds = ['f8', 'f8', 'f8']
+        vals = [F(x) for w in c['ws'] for x in w]
+        if all(_bits_ok(x) and _bits_ok(x * sr) for x in vals):
+            kinds.append('f4')
+        if vals and all(_is_int(x) for x in vals):
+            kinds += ['i8', 'u8', 'i4']
+        c.setdefault('dtype', rng.choice(kinds))
+    if k == 'avg':
+        tk = ['f8', 'f8', 'f4'] + (['i8', 'i4'] if all(_is_int(x) for x in c['time'] + [y for w in c['ws'] for y in w]) else [])
+        c.setdefault('dtype', rng.choice(tk))
+        vk = ['f8', 'f8'] + (['i8', 'i4'] if all(_is_int(v) for row in c['values'] for v in row) else [])
+        if all(_bits_ok(F(v) * n) for row in c['values'] for v in row for n in range(1, len(c['time']) + 2)):
+            vk.append('f4')
+        c.setdefault('vdtype', rng.choice(vk) if c.get('alias') != 'tv' else c['dtype'])
+    if k in ('volt', 'volt_tol', 'mono', 'win', 'shrink', 'avg'):
+        c.setdefault('ro', rng.random() < 0.3)
+        c.setdefault('view', rng.random() < 0.25)
+    if k == 'nni':
+        c.setdefault('tuple', rng.random() < 0.5)
+    if k == 'times':
+        c.setdefault('container', rng.choice(['list', 'tuple', 'single'] if len(c['durs']) == 1 else ['list', 'tuple']))
+    return c
+
+
+def gen_stateful(rng, tier, out):
+    """Boundary family for the stateful / aliasing classes (round 3): the SAME argument objects are used for two calls by
+    run_impl for every case; here the inputs on which an in-place shortcut would show: offset exactly 0 vs non-zero, every
+    element kind, low resolution / large amplitude (values written back in place stay inside the range, so a second
+    conversion silently gives other codes) and high resolution (the second conversion is out of range), read-only arrays,
+    strided views; the same array object passed for two parameters (begins is lengths; ends is begins; values is time;
+    begins is time)."""
+    n = {'quick': 1, 'thorough': 6}[tier]
+    for dt in ('f8', 'f4', 'i8', 'i4'):
+        for off in (F(0), F(1)):
+            for res, amp in ((1, 8), (2, 8), (4, 16), (8, 2), (16, 1), (16, 4)):
+                for ro, view in ((False, False), (True, False), (False, True)):
+                    if (ro or view) and rng.random() < 0.5 and tier == 'quick':
+                        continue
+                    m = rng.randint(1, 6)
+                    vs = [off + rng.randint(-amp, amp) for _ in range(m)]
+                    c = {'kind': 'volt', 'amp': fs(amp), 'off': fs(off), 'res': res, 'vs': [fs(v) for v in vs],
+                         'dtype': dt, 'ro': ro, 'view': view, 'intscalars': rng.random() < 0.3}
+                    if dt == 'f4' and not volt_f4_ok(c):
+                        c['dtype'] = 'f8'
+                    out.append(c)
+    for _ in range(12 * n):         # begins is lengths (one array object for both parameters)
+        xs = [rng.choice([F(0), F(1, 2), F(1), F(3, 2), F(2), F(5, 2), F(3)]) for _ in range(rng.randint(1, 5))]
+        out.append({'kind': 'win', 'sr': fs(rng.choice([F(1), F(2), F(1, 2)])), 'ws': [[fs(x), fs(x)] for x in xs],
+                    'alias': True, 'dtype': rng.choice(['f8', 'f4']), 'ro': rng.random() < 0.3, 'view': rng.random() < 0.3})
+    for _ in range(30 * n):         # average_windows with one array object in two roles
+        ns = rng.randint(1, 6)
+        time = sorted(dy(rng, 0, 6, 1) for _ in range(ns)) if rng.random() < 0.5 else [F(i) for i in range(ns)]
+        alias = rng.choice(['be', 'tv', 'tb'])
+        if alias == 'tv':           # the time stamps are the values: multiples of 30 keep every mean of <= 6 of them dyadic
+            time = [30 * t for t in time]
+        nch = 0 if alias == 'tv' else rng.choice([0, 1, 2])
+        values = [[t] for t in time] if alias == 'tv' else [[F(630 * rng.randint(-4, 4)) for _ in range(max(nch, 1))] for _ in range(ns)]
+        if alias == 'tb':
+            ws = [(t, t + rng.choice([F(0), F(1, 2), F(1), F(2), F(7)])) for t in time]
+        else:
+            ws = []
+            for _ in range(rng.randint(1, 4)):
+                b = dy(rng, 0, 6, 1) * (30 if alias == 'tv' else 1)
+                ws.append((b, b if alias == 'be' else b + rng.choice([F(0), F(1), F(2), F(5)]) * (30 if alias == 'tv' else 1)))
+        out.append({'kind': 'avg', 'nch': nch, 'time': [fs(t) for t in time], 'values': [[fs(v) for v in row] for row in values],
+                    'ws': [[fs(b), fs(e)] for b, e in ws], 'alias': alias})
+    # the same channel id on several outputs with pairwise different amplitude / offset / transformation (every order)
+    settings = [(None, 1, 0), (['aff', '2', '1'], 2, F(1, 2)), (['sq'], F(1, 2), F(-1, 4)), (['aff', '-1', '0'], 4, 1),
+                (None, F(1, 4), F(1, 2))]
+    for i in range(16 * n):
+        rate = F(2) ** rng.randint(-1, 1)
+        wfs = []
+        while len(wfs) < rng.choice([1, 2]):
+            w = gen_wf(rng, rate)
+            if w not in wfs:
+                wfs.append(w)
+        common = set(c for c, _ in wfs[0]['chs'])
+        for w in wfs[1:]:
+            common &= set(c for c, _ in w['chs'])
+        common = sorted(common, key=str)
+        ch = rng.choice(common)
+        picks = rng.sample(settings, rng.randint(2, 4))
+        chans = [{'ch': ch, 'T': T, 'amp': fs(a), 'off': fs(o)} for T, a, o in picks]
+        for _ in range(rng.randint(0, 2)):
+            chans.insert(rng.randint(0, len(chans)), rng.choice([None, {'ch': rng.choice(common), 'T': None, 'amp': '1', 'off': '0'}]))
+        mk = rng.choice(common)
+        markers = rng.choice([[mk, mk], [mk, None, mk], [ch], []])
+        out.append({'kind': 'sample', 'rate': fs(rate), 'chans': chans, 'markers': markers, 'wfs': wfs,
+                    'via_loop': rng.random() < 0.3, 'repeat': [0] if rng.random() < 0.5 else [], 'dup': True})
+
+
 def gen_cases(rng, tier, ctx):
     out = []
+    gen_stateful(rng, tier, out)
     gen_volt(rng, tier, out)
     gen_volt_tol(rng, tier, out)
     gen_mono(rng, tier, out)
@@ -435,7 +597,8 @@ def gen_cases(rng, tier, ctx):
     gen_nni(rng, tier, out)
     gen_times(rng, tier, out)
     gen_sample(rng, tier, out)
-    return out
+    drng = __import__('random').Random(rng.getrandbits(64))
+    return [decorate(drng, c) for c in out]
 
 
 # ---------------------------------------------------------------------------------------------------------------------
@@ -498,104 +661,254 @@ def make_trafo(T):
     raise ValueError(T)
 
 
+DTYPES = {'f8': 'float64', 'f4': 'float32', 'i8': 'int64', 'u8': 'uint64', 'i4': 'int32'}
+DTCODE = {'float64': 1, 'float32': 2, 'int64': 3, 'uint64': 4, 'int32': 5, 'bool': 6, 'uint16': 7, 'int16': 8}
+
+
+def _mk(vals, dt='f8', ro=False, view=False, shape=None):
+    """argument array: element kind `dt`, optionally a non-contiguous view into a bigger array, optionally read-only"""
+    import numpy as np
+    a = np.array(vals, dtype=DTYPES[dt])
+    assert all(F(float(x)) == F(v) for x, v in zip(a.ravel(), np.array(vals, dtype=object).ravel())), 'inexact %s array' % dt
+    if shape is not None:
+        a = a.reshape(shape)
+    if view:
+        big = np.zeros((2 * a.shape[0] + 1,) + a.shape[1:], dtype=a.dtype)
+        big[1::2] = a
+        a = big[1::2]
+    if ro:
+        a.flags.writeable = False
+    return a
+
+
+def _snap(arrs):
+    """exact snapshot of argument arrays (whole base array for views): [[kind code, len, values...], ...]; NaN -> None"""
+    import numpy as np
+    out = []
+    for a in arrs:
+        b = a.base if isinstance(getattr(a, 'base', None), np.ndarray) else a
+        row = [str(DTCODE.get(b.dtype.name, 99)), str(b.size)]
+        for x in np.asarray(b).ravel():
+            x = float(x)
+            row.append(None if math.isnan(x) or math.isinf(x) else fs(F(x)))
+        out.append(row)
+    return out
+
+
+def _run3(mkargs, fns, call):
+    """Every variant gets its own argument objects (mkargs() -> (args, arrays to watch)) and is called TWICE ON THE SAME
+    OBJECTS; snapshots of the watched arrays before / after the first / after the second call."""
+    first, again, snaps = {}, {}, [[], [], []]
+    for name, f in fns.items():
+        args, watch = mkargs(name)
+        s0 = _snap(watch)
+        o1 = call(f, args, name)
+        s1 = _snap(watch)
+        o2 = call(f, args, name)
+        s2 = _snap(watch)
+        first[name], again[name] = o1, o2
+        for s, x in zip(snaps, (s0, s1, s2)):
+            s.extend(x)
+    first['again'] = again
+    first['ins'] = snaps
+    return first
+
+
+def _twice1(watch_fn, go):
+    """single-variant routines: go() twice, snapshot watch_fn() (JSON rows) around the calls"""
+    s0 = watch_fn()
+    o1 = go()
+    s1 = watch_fn()
+    o2 = go()
+    s2 = watch_fn()
+    o1['again'] = o2
+    o1['ins'] = [s0, s1, s2]
+    return o1
+
+
+def _shrink_obs(P, bs, ls, own_copy=True):
+    """the three observations of shrink_overlapping_windows on begins/lengths; the in-place backends get copies (they are
+    in place by contract) unless own_copy is False (then they work on the given objects)"""
+    def backend(f):
+        def go():
+            b, l = (bs.copy(), ls.copy()) if own_copy else (bs, ls)
+            s = f(b, l)
+            return {'ws': [[int(x), int(y)] for x, y in zip(b, l)], 'shrank': bool(s)}
+        return go
+
+    def public():
+        with warnings.catch_warnings(record=True) as rec:
+            warnings.simplefilter('always')
+            b, l = P.shrink_overlapping_windows(bs, ls)
+        if b is bs or l is ls:
+            raise RuntimeError('shrink_overlapping_windows returned an argument object')
+        warned = any(issubclass(w.category, P.WindowOverlapWarning) for w in rec)
+        return {'ws': [[int(x), int(y)] for x, y in zip(b, l)], 'shrank': warned}
+    return {'np': backend(P._shrink_overlapping_windows_numpy), 'loop': backend(P._shrink_overlapping_windows_numba),
+            'pub': public}
+
+
 def run_impl(case):
     import numpy as np
     from qupulse.utils import performance as P
     from qupulse.hardware import util as U
     k = case['kind']
+    dt, ro, view = case.get('dtype', 'f8'), case.get('ro', False), case.get('view', False)
     if k in ('volt', 'volt_tol'):
         amp, off, res = _fl(case['amp']), _fl(case['off']), case['res']
+        if case.get('intscalars'):                 # amplitude / offset handed over as Python ints
+            amp, off = (int(amp) if amp == int(amp) else amp), (int(off) if off == int(off) else off)
         vs = [_fl(v) for v in case['vs']]
 
-        def call(f):
-            o = _outcome(lambda: f(np.array(vs, dtype=float), amp, off, res))
+        def mkargs(name):
+            a = _mk(vs, dt, ro, view)
+            return [a], [a]
+
+        def call(f, args, name):
+            o = _outcome(lambda: f(args[0], amp, off, res))
             if 'ret' in o:
                 r = o['ret']
                 if str(getattr(r, 'dtype', '')) != 'uint16':
                     return {'crash': 'result dtype %s' % getattr(r, 'dtype', type(r))}
+                if r is args[0] or np.shares_memory(r, args[0]):
+                    return {'crash': 'result shares memory with the voltage argument'}
                 o['ret'] = [int(x) for x in r]
             return o
-        return {'np': call(U._voltage_to_uint16_numpy), 'loop': call(U._voltage_to_uint16_numba),
-                'pub': call(U.voltage_to_uint16)}
+        return _run3(mkargs, {'np': U._voltage_to_uint16_numpy, 'loop': U._voltage_to_uint16_numba,
+                              'pub': U.voltage_to_uint16}, call)
     if k == 'mono':
-        xs = np.array([_fl(x) for x in case['xs']], dtype=float)
+        xs = [_fl(x) for x in case['xs']]
 
-        def call(f):
-            o = _outcome(lambda: f(xs))
+        def mkargs(name):
+            a = _mk(xs, dt, ro, view)
+            return [a], [a]
+
+        def call(f, args, name):
+            o = _outcome(lambda: f(args[0]))
             if 'ret' in o:
                 o['ret'] = bool(o['ret'])
             return o
-        return {'np': call(P._is_monotonic_numpy), 'loop': call(P._is_monotonic_numba), 'pub': call(P.is_monotonic)}
+        return _run3(mkargs, {'np': P._is_monotonic_numpy, 'loop': P._is_monotonic_numba, 'pub': P.is_monotonic}, call)
     if k == 'win':
         sr = _fl(case['sr'])
-        bs = np.array([_fl(b) for b, _ in case['ws']], dtype=float)
-        ls = np.array([_fl(l) for _, l in case['ws']], dtype=float)
 
-        def call(f):
-            o = _outcome(lambda: f(bs.copy(), ls.copy(), sr))
+        def mkargs(name):
+            bs = _mk([_fl(b) for b, _ in case['ws']], dt, ro, view)
+            ls = bs if case.get('alias') else _mk([_fl(l) for _, l in case['ws']], dt, ro, view)
+            return [bs, ls], [bs, ls]
+        outs = {}
+
+        def call(f, args, name):
+            o = _outcome(lambda: f(args[0], args[1], sr))
             if 'ret' in o:
                 b, l = o['ret']
-                o['ret'] = [[int(x), int(y)] for x, y in zip(b, l)]
                 if len(b) != len(l):
                     return {'crash': 'lengths differ'}
+                if any(np.shares_memory(x, y) for x in (b, l) for y in args):
+                    return {'crash': 'result shares memory with an argument'}
+                outs[name] = (b, l)
+                o['ret'] = [[int(x), int(y)] for x, y in zip(b, l)]
             return o
-        return {'np': call(P._time_windows_to_samples_numpy), 'loop': call(P._time_windows_to_samples_numba),
-                'pub': call(P.time_windows_to_samples)}
+        obs = _run3(mkargs, {'np': P._time_windows_to_samples_numpy, 'loop': P._time_windows_to_samples_numba,
+                             'pub': P.time_windows_to_samples}, call)
+        if 'pub' in outs and case.get('chain', True):
+            # pipeline (as in the Alazar driver): the public result (read-only uint64 arrays) goes to shrink_overlapping_windows
+            b, l = outs['pub']
+            fns = _shrink_obs(P, b, l)
+            snap0 = _snap([b, l])
+            ch = {name: _outcome(f) for name, f in fns.items()}
+            ch['ins'] = [snap0, _snap([b, l])]
+            obs['chain'] = ch
+            obs['chain_case'] = {'kind': 'shrink', 'dtype': 'uint64', 'ws': [[int(x), int(y)] for x, y in zip(b, l)]}
+        return obs
     if k == 'shrink':
-        dt = getattr(np, case['dtype'])
-        bs = np.array([w[0] for w in case['ws']], dtype=dt)
-        ls = np.array([w[1] for w in case['ws']], dtype=dt)
+        ws = case['ws']
+        dts = 'i8' if case['dtype'] == 'int64' else 'u8'
 
-        def backend(f):
-            def go():
-                b, l = bs.copy(), ls.copy()
-                s = f(b, l)
-                return {'ws': [[int(x), int(y)] for x, y in zip(b, l)], 'shrank': bool(s)}
-            return _outcome(go)
+        def mkargs(name):
+            bs = _mk([w[0] for w in ws], dts, ro and name == 'pub', view)
+            ls = _mk([w[1] for w in ws], dts, ro and name == 'pub', view)
+            return [bs, ls], [bs, ls]
 
-        def public():
-            def go():
-                with warnings.catch_warnings(record=True) as rec:
-                    warnings.simplefilter('always')
-                    b, l = P.shrink_overlapping_windows(bs.copy(), ls.copy())
-                warned = any(issubclass(w.category, P.WindowOverlapWarning) for w in rec)
-                return {'ws': [[int(x), int(y)] for x, y in zip(b, l)], 'shrank': warned}
-            return _outcome(go)
-        return {'np': backend(P._shrink_overlapping_windows_numpy), 'loop': backend(P._shrink_overlapping_windows_numba),
-                'pub': public()}
+        def call(f, args, name):
+            return _outcome(_shrink_obs(P, args[0], args[1])[name])
+        obs = _run3(mkargs, {'np': None, 'loop': None, 'pub': None}, call)
+        if all('ret' in obs[v] for v in ('np', 'loop', 'pub')) and obs['np'] == obs['loop'] == obs['pub']:
+            # shrinking again what was shrunk (the backends IN PLACE on one pair of arrays, twice): nothing left to do
+            out = obs['pub']['ret']['ws']
+            ch = {}
+            for name in ('np', 'loop'):
+                b = _mk([w[0] for w in ws], dts)
+                l = _mk([w[1] for w in ws], dts)
+                fn = _shrink_obs(P, b, l, own_copy=False)[name]
+                o1 = _outcome(fn)
+                ch[name] = _outcome(fn) if 'ret' in o1 and o1 == obs[name] else {'crash': 'in-place run differs from the run on a copy: %s' % o1}
+            b = _mk([w[0] for w in out], dts, True)
+            l = _mk([w[1] for w in out], dts, True)
+            ch['pub'] = _outcome(_shrink_obs(P, b, l)['pub'])
+            obs['chain'] = ch
+            obs['chain_case'] = {'kind': 'shrink', 'dtype': case['dtype'], 'ws': out}
+        return obs
     if k == 'avg':
         nch = case['nch']
-        time = np.array([_fl(t) for t in case['time']], dtype=float)
-        vals = np.array([[_fl(v) for v in row] for row in case['values']], dtype=float).reshape((len(time), max(nch, 1)))
-        if nch == 0:
-            vals = vals[:, 0]
-        bs = np.array([_fl(b) for b, _ in case['ws']], dtype=float)
-        es = np.array([_fl(e) for _, e in case['ws']], dtype=float)
+        alias = case.get('alias')
+        vdt = case.get('vdtype', 'f8')
 
-        def call(f):
+        def mkargs(name):
+            time = _mk([_fl(t) for t in case['time']], dt, ro, view)
+            if alias == 'tv':
+                vals = time
+            else:
+                vals = _mk([[_fl(v) for v in row] for row in case['values']], vdt, ro, view, shape=(len(time), max(nch, 1)))
+                if nch == 0:
+                    vals = vals[:, 0]
+            if alias == 'tb':
+                assert [b for b, _ in case['ws']] == case['time']
+            bs = time if alias == 'tb' else _mk([_fl(b) for b, _ in case['ws']], dt, ro, view)
+            es = bs if alias == 'be' else _mk([_fl(e) for _, e in case['ws']], dt, ro, view)
+            return [time, vals, bs, es], [time, vals, bs, es]
+
+        def call(f, args, name):
             def go():
                 with warnings.catch_warnings():
                     warnings.simplefilter('ignore')
-                    r = f(time.copy(), vals.copy(), bs.copy(), es.copy())
-                r = np.asarray(r, dtype=float).reshape((len(bs), max(nch, 1)))
+                    r = f(*args)
+                if any(np.shares_memory(r, y) for y in args):
+                    raise RuntimeError('result shares memory with an argument')
+                r = np.asarray(r, dtype=float).reshape((len(args[2]), max(nch, 1)))
                 return [_fr_list(row) for row in r]
             return _outcome(go)
-        return {'np': call(P._average_windows_numpy), 'loop': call(P._average_windows_numba), 'pub': call(P.average_windows)}
+        return _run3(mkargs, {'np': P._average_windows_numpy, 'loop': P._average_windows_numba, 'pub': P.average_windows}, call)
     if k == 'nni':
-        o = _outcome(lambda: U.not_none_indices(case['l']))
-        if 'ret' in o:
-            o['ret'] = [list(o['ret'][0]), int(o['ret'][1])]
-        return o
+        seq = tuple(case['l']) if case.get('tuple') else list(case['l'])
+
+        def go():
+            o = _outcome(lambda: U.not_none_indices(seq))
+            if 'ret' in o:
+                if o['ret'][0] is seq:
+                    return {'crash': 'the argument sequence itself was returned'}
+                o['ret'] = [list(o['ret'][0]), int(o['ret'][1])]
+            return o
+        return _twice1(lambda: [['0', str(len(seq))] + [('-1' if x is None else str(x)) for x in seq]], go)
     if k == 'times':
         from qupulse.program.waveforms import ConstantWaveform
         from qupulse.utils.types import TimeType
         rate = F(case['rate'])
 
+        wfs = [ConstantWaveform(TimeType.from_fraction(F(d).numerator, F(d).denominator), 0.5, 'A') for d in case['durs']]
+        wfs0 = list(wfs)
+
+        arg = wfs
+        if case.get('container') == 'tuple':
+            arg = tuple(wfs)
+        elif case.get('container') == 'single' and len(wfs) == 1:
+            arg = wfs[0]                     # a bare waveform instead of a collection
+
         def go():
-            wfs = [ConstantWaveform(TimeType.from_fraction(F(d).numerator, F(d).denominator), 0.5, 'A') for d in case['durs']]
-            t, l = U.get_sample_times(wfs, TimeType.from_fraction(rate.numerator, rate.denominator))
-            return [[vlib.frac_json(float(x)) for x in t], [int(x) for x in l]]
-        return _outcome(go)
+            t, l = U.get_sample_times(arg, TimeType.from_fraction(rate.numerator, rate.denominator))
+            return [[vlib.frac_json(float(x)) for x in t], [int(x) for x in np.atleast_1d(l)]]
+        return _twice1(lambda: [['0', str(len(wfs))] + [fs(F(int(w.duration.numerator), int(w.duration.denominator))) for w in wfs]
+                                + ['1' if a is b else '0' for a, b in zip(wfs, wfs0)]], lambda: _outcome(go))
     if k == 'sample':
         from qupulse.hardware.awgs.base import ProgramEntry
         from qupulse.program.loop import Loop
@@ -603,27 +916,7 @@ def run_impl(case):
         rate = F(case['rate'])
         tt_rate = TimeType.from_fraction(rate.numerator, rate.denominator)
 
-        def go():
-            wfs = [build_waveform(d) for d in case['wfs']]
-            chans = case['chans']
-            kw = dict(channels=tuple(None if c is None else c['ch'] for c in chans),
-                      markers=tuple(case['markers']),
-                      amplitudes=tuple(1.0 if c is None else _fl(c['amp']) for c in chans),
-                      offsets=tuple(0.0 if c is None else _fl(c['off']) for c in chans),
-                      voltage_transformations=tuple(None if c is None else make_trafo(c['T']) for c in chans),
-                      sample_rate=tt_rate)
-            if case['via_loop']:
-                leaves = [Loop(waveform=w) for w in wfs] + [Loop(waveform=wfs[i], repetition_count=2) for i in case['repeat']]
-                entry = ProgramEntry(Loop(children=leaves), **kw)
-            else:
-                entry = ProgramEntry(None, waveforms=wfs, **kw)
-            if list(entry._waveforms.keys()) != wfs:
-                raise RuntimeError('waveform keys/order differ from the played waveforms')
-            res = []
-            for w in wfs:
-                cs, ms = entry._waveforms[w]
-                res.append([[None if a is None else _fr_list(a) for a in cs],
-                            [None if a is None else [bool(x) for x in a] for a in ms]])
+        def raw_of(wfs):
             # the waveform's own sampling function on the harness' exact grid k / rate
             raw = []
             for d, w in zip(case['wfs'], wfs):
@@ -631,26 +924,91 @@ def run_impl(case):
                 nn = round(seg) if abs(seg - round(seg)) <= F(1, 10 ** 10) else math.floor(seg)
                 grid = np.array([_fl(F(i) / rate) for i in range(max(nn, 0))], dtype=float)
                 raw.append([[c, _fr_list(w.get_sampled(c, grid))] for c, _ in d['chs']])
-            return res, raw
+            return raw
+        try:
+            wfs = [build_waveform(d) for d in case['wfs']]
+            raw0 = raw_of(wfs)
+        except Exception as e:
+            return {'crash': 'raw sampling failed: %s: %s' % (type(e).__name__, str(e)[:200])}
+        wfs_arg = list(wfs)
+        chans = case['chans']
+        # ONE set of argument objects (waveforms, tuples, transformation callables, Loop tree) for both constructions
+        kw = dict(channels=tuple(None if c is None else c['ch'] for c in chans),
+                  markers=tuple(case['markers']),
+                  amplitudes=tuple(1.0 if c is None else _fl(c['amp']) for c in chans),
+                  offsets=tuple(0.0 if c is None else _fl(c['off']) for c in chans),
+                  voltage_transformations=tuple(None if c is None else make_trafo(c['T']) for c in chans),
+                  sample_rate=tt_rate)
+        kw0 = {key: (tuple(v) if isinstance(v, tuple) else v) for key, v in kw.items()}
+        program = None
+        if case['via_loop']:
+            leaves = [Loop(waveform=w) for w in wfs] + [Loop(waveform=wfs[i], repetition_count=2) for i in case['repeat']]
+            program = Loop(children=leaves)
+            program_repr = repr(program)
+        entries = []
+
+        def read(entry):
+            if list(entry._waveforms.keys()) != wfs:
+                raise RuntimeError('waveform keys/order differ from the played waveforms')
+            res = []
+            for w in wfs:
+                cs, ms = entry._waveforms[w]
+                res.append([[None if a is None else _fr_list(a) for a in cs],
+                            [None if a is None else [bool(x) for x in a] for a in ms]])
+            return res
+
+        def go():
+            if case['via_loop']:
+                entry = ProgramEntry(program, **kw)
+            else:
+                entry = ProgramEntry(None, waveforms=wfs_arg, **kw)
+            entries.append(entry)
+            return read(entry)
+
+        def watch_args():
+            """raw samples of every waveform object + the argument containers"""
+            rows = []
+            for wr in raw_of(wfs):
+                for c, xs in wr:
+                    rows.append(['1', str(len(xs))] + xs)
+            same = (len(wfs_arg) == len(wfs) and all(x is y for x, y in zip(wfs_arg, wfs))
+                    and all(kw[key] == kw0[key] for key in kw)
+                    and (program is None or repr(program) == program_repr))
+            rows.append(['0', '1', '1' if same else '0'])
+            return rows
+
+        def watch_entry():
+            """what the FIRST entry holds (must not change when a second entry is built from the same objects)"""
+            rows = []
+            for e in entries[:1]:
+                try:
+                    for cs, ms in read(e):
+                        for a in cs:
+                            rows.append(['1', '0'] if a is None else ['1', str(len(a))] + a)
+                        for a in ms:
+                            rows.append(['6', '0'] if a is None else ['6', str(len(a))] + [str(int(x)) for x in a])
+                except Exception:
+                    rows.append(['0', '1', None])
+            return rows
+        a0 = watch_args()
         o = _outcome(go)
-        if 'ret' in o:
-            o['ret'], o['raw'] = o['ret']
-        else:
-            # still need the raw samples for the model (it must fail on its own)
-            def go_raw():
-                import numpy as np
-                raw = []
-                for d in case['wfs']:
-                    w = build_waveform(d)
-                    seg = F(d['dur']) * rate
-                    nn = round(seg) if abs(seg - round(seg)) <= F(1, 10 ** 10) else math.floor(seg)
-                    grid = np.array([_fl(F(i) / rate) for i in range(max(nn, 0))], dtype=float)
-                    raw.append([[c, _fr_list(w.get_sampled(c, grid))] for c, _ in d['chs']])
-                return raw
-            r = _outcome(go_raw, expected=())
-            if 'ret' not in r:
-                return {'crash': 'raw sampling failed: %s' % r}
-            o['raw'] = r['ret']
+        a1, e1 = watch_args(), watch_entry()
+        o2 = _outcome(go)
+        # a third entry from the same waveform objects with OTHER output settings (amplitudes x 2, offsets + 1): whatever it
+        # does must not disturb what the first entry holds
+        try:
+            kw3 = dict(kw, amplitudes=tuple(2 * a for a in kw['amplitudes']), offsets=tuple(b + 1 for b in kw['offsets']))
+            e3 = ProgramEntry(program, **kw3) if case['via_loop'] else ProgramEntry(None, waveforms=wfs_arg, **kw3)
+            entries.append(e3)
+        except Exception:
+            pass
+        a2, e2 = watch_args(), watch_entry()
+        arrs = [[a for w in e._waveforms.values() for part in w for a in part if a is not None] for e in entries]
+        if any(np.shares_memory(x, y) for i, xs in enumerate(arrs) for ys in arrs[i + 1:] for x in xs for y in ys):
+            return {'crash': 'two ProgramEntry objects built from the same waveforms share sample memory'}
+        o['raw'] = raw0
+        o['again'] = dict(o2, raw=raw0)
+        o['ins'] = [a0 + e1, a1 + e1, a2 + e2]
         return o
     raise ValueError(k)
 
@@ -694,7 +1052,38 @@ def g_trafo(T):
     return 'TSquare'
 
 
+def g_ins(ins):
+    if any(x is None for snap in ins for row in snap for x in row):
+        return None
+    return glist(lambda snap: glist(lambda row: glist(gQs, row), snap), ins)
+
+
 def to_coq(case, obs):
+    """first call [+ second call on the same argument objects + argument snapshots] [+ pipeline case]"""
+    if _bad(obs):
+        return 'CCrash'
+    t = to_coq1(case, obs)
+    if t == 'CCrash':
+        return t
+    if 'again' in obs:
+        again, ins = to_coq1(case, obs['again']), g_ins(obs['ins'])
+        if again == 'CCrash' or ins is None:
+            return 'CCrash'
+        t = '(CTwice %s %s %s)' % (t, again, ins)
+    if 'chain' in obs:
+        c2 = to_coq1(obs['chain_case'], obs['chain'])
+        if c2 == 'CCrash':
+            return c2
+        if 'ins' in obs['chain']:
+            ins = g_ins(obs['chain']['ins'])
+            if ins is None:
+                return 'CCrash'
+            c2 = '(CTwice %s %s %s)' % (c2, c2, ins)
+        t = '(CAnd %s %s)' % (t, c2)
+    return t
+
+
+def to_coq1(case, obs):
     k = case['kind']
     if _bad(obs):
         return 'CCrash'
@@ -778,8 +1167,8 @@ def rint_even(x):
 def py_volt(case, o):
     amp, off, res = F(case['amp']), F(case['off']), case['res']
     vs = [F(v) for v in case['vs']]
-    if res < 1 or any(abs(v - off) > amp for v in vs):
-        return None if 'err' in o else 'input must be rejected (resolution < 1 or a voltage outside offset +- amplitude)'
+    if res < 1 or res > 16 or any(abs(v - off) > amp for v in vs):
+        return None if 'err' in o else 'input must be rejected (resolution outside 1..16 or a voltage outside offset +- amplitude)'
     if 'err' in o:
         return 'in-range voltages rejected'
     M = 2 ** res - 1
@@ -886,7 +1275,46 @@ def _variants_agree(obs):
     return obs['np'] == obs['loop'] == obs['pub']
 
 
+_META = ('again', 'ins', 'chain', 'chain_case', 'raw')
+
+
+def stateful_why(obs):
+    """the second call on the same argument objects must observe what the first did; no argument may be modified"""
+    if 'again' in obs:
+        a = {k: v for k, v in obs.items() if k not in _META}
+        b = {k: v for k, v in obs['again'].items() if k not in _META}
+        if a != b:
+            return 'a second call on the same argument objects gives another result than the first: %s then %s' % (
+                str(a)[:200], str(b)[:200])
+    for holder in (obs, obs.get('chain', {})):
+        ins = holder.get('ins')
+        if ins and any(sn != ins[0] for sn in ins[1:]):
+            i = [sn != ins[0] for sn in ins].index(True)
+            return 'an argument object was modified by the call (snapshot %d differs from the one taken before the first call)' % i
+    return None
+
+
 def py_spec(case, obs):
+    why = py_spec1(case, obs)
+    if why:
+        return why
+    if 'again' in obs and not _bad(obs['again']):
+        ag = obs['again']
+        if 'np' in ag and any(_bad(ag[v]) for v in ('np', 'loop', 'pub')):
+            return 'second call crashed or hung: %s' % (str(ag)[:300])
+    elif 'again' in obs:
+        return 'second call crashed or hung: %s' % (str(obs['again'])[:300])
+    why = stateful_why(obs)
+    if why:
+        return why
+    if 'chain' in obs:
+        why = py_spec1(obs['chain_case'], obs['chain'])
+        if why:
+            return 'pipeline (output fed into shrink_overlapping_windows %s): %s' % (obs['chain_case']['ws'], why)
+    return None
+
+
+def py_spec1(case, obs):
     k = case['kind']
     if _bad(obs) or (k in ('volt', 'volt_tol', 'mono', 'win', 'shrink', 'avg') and any(_bad(obs[v]) for v in ('np', 'loop', 'pub'))):
         return 'implementation crashed or hung: %s' % (str(obs)[:300])
@@ -894,7 +1322,9 @@ def py_spec(case, obs):
         r = py_volt(case, obs['pub'])
         if r:
             return r
-        if case['res'] >= 1 and not _variants_agree(obs):
+        if case['res'] > 16 and obs['np'] != obs['loop']:
+            return 'the internal implementations of voltage_to_uint16 disagree (resolution > 16)'
+        if 1 <= case['res'] <= 16 and not _variants_agree(obs):
             return 'the internal implementations of voltage_to_uint16 disagree'
     if k == 'volt_tol':
         r = py_volt_tol(case, obs['pub'])
@@ -989,11 +1419,32 @@ def histogram_keys(case, obs):
             keys.append('sample:via_loop')
     if k == 'times':
         keys.append('times:%s' % ('err' if 'err' in obs else 'ok'))
+    # argument-object classes (round 3)
+    for a in ('dtype', 'vdtype'):
+        if a in case and k != 'shrink':
+            keys.append('%s:%s=%s' % (k, a, case[a]))
+    for a, name in (('ro', 'read-only'), ('view', 'strided-view'), ('intscalars', 'int-scalars'), ('tuple', 'tuple'),
+                    ('dup', 'same-channel-on-several-outputs')):
+        if case.get(a):
+            keys.append('%s:%s' % (k, name))
+    if case.get('alias'):
+        keys.append('%s:alias=%s' % (k, case['alias']))
+    if case.get('container'):
+        keys.append('%s:container=%s' % (k, case['container']))
+    if k == 'volt':
+        keys.append('volt:offset%s0' % ('=' if F(case['off']) == 0 else '!='))
+    if 'chain' in obs:
+        keys.append('%s:pipeline-into-shrink' % k)
     return keys
 
 
 def classify(case, obs):
     k = case['kind']
+    if _bad(obs) or stateful_why(obs) or ('again' in obs and (_bad(obs['again']) or any(
+            _bad(o) for o in obs['again'].values() if isinstance(o, dict)))):
+        return None       # a known finding never covers a modified argument or a differing second call
+    if 'chain' in obs and py_spec1(obs['chain_case'], obs['chain']):
+        return None
     if k == 'shrink' and not _bad(obs) and all(not _bad(obs[v]) for v in ('np', 'loop', 'pub')):
         ws = [tuple(w) for w in case['ws']]
         # a zero-length window that does not overlap its predecessor
@@ -1104,9 +1555,17 @@ MANIFEST = {
                   'kernels (_is_monotonic_numba, _shrink_overlapping_windows_numba, _time_windows_to_samples_sorted_numba, '
                   '_voltage_to_uint16_numba, not_none_indices) are re-translated from /repo on every run and re-proved equal '
                   'to the model.  Separately labelled binary64 theorems (Flocq): the float computation of the code is monotone '
-                  'and equals the exact code unless a half-way point lies between exact and float scaled voltage.  Not '
-                  'translated: _average_windows_numba (nested while loops with short-circuit subscripts, 2-D arrays); no '
-                  'quantitative bound on the float error of the scaled voltage.',
+                  'and equals the exact code unless a half-way point lies between exact and float scaled voltage; round 3: for '
+                  'amplitudes in 2^-500..2^500, in-range voltage and resolution 1..16 the float scaled voltage is within 2^-30 of '
+                  'the exact one, hence |float code - exact code| <= 1, the float code is within 1/2 + 2^-30 of the exact scaled '
+                  'voltage (= the tolerance of the decimal stream) and equals the exact code unless the exact scaled voltage is '
+                  'within 2^-30 of a half-way point.  uint16 result: storing is the identity for resolutions 1..16 and wraps above '
+                  '(refuted monotonicity; the public function rejects > 16 since repair 4036b19).  Purity (arguments unchanged, '
+                  'second call on the same objects = first call) is part of check_corr / check_spec for every routine, not a '
+                  'theorem (the models are pure functions).  Not translated: _average_windows_numba (needs while loops with a '
+                  'termination measure, lazily evaluated `and` whose right operand subscripts an array, tuple unpacking of '
+                  '.shape, 2-D row views with broadcasting += and /=, NaN rows): its model avg_loop is tied to the code by '
+                  'correspondence only.',
     'level_note': 'Trusted: Coq kernel, the C20 translator (incl. its reading of numpy calls and float arithmetic as exact '
                   'rationals), numpy elementwise float arithmetic on dyadic inputs, Waveform.get_sampled as the sampling '
                   'function, harness.  Models are tied to /repo by an exact correspondence check that calls both internal '
